@@ -90,6 +90,10 @@ enum Work {
     TcpVictimWrites,
     /// V dials p1 and never reads; p1 (the acceptor) keeps writing into the full window
     TcpVictimDials,
+    /// V accepts at once and reads everything; the peers stream bytes back to back through a
+    /// window of two segments, so they are usually parked in `write` with their window full
+    /// of segments that are still in flight (nothing unread at V) when the fault hits
+    TcpPeerStreams,
     /// V holds UDP sockets and a multicast membership, peers keep sending
     Udp,
     /// V idles with nested spawned tasks holding drop guards
@@ -357,6 +361,8 @@ async fn put(st: &mut TcpStream, b: u8, readiness: bool) -> std::io::Result<()> 
 thread_local! {
     /// the peers look at the end of their stream with peek() before they read it
     static PEEK_FIRST: std::cell::Cell<bool> = const { std::cell::Cell::new(false) };
+    /// the peers write twelve bytes back to back instead of three with pauses
+    static BURST: std::cell::Cell<bool> = const { std::cell::Cell::new(false) };
 }
 
 async fn tcp_peer(s: S, name: &'static str, start_ms: u64, tag: u8, slow_reader: bool, readiness: bool) -> turmoil::Result {
@@ -407,7 +413,8 @@ async fn tcp_peer(s: S, name: &'static str, start_ms: u64, tag: u8, slow_reader:
         };
         // a few writes, then a read that only ends when the other side goes away
         let mut failed = false;
-        for i in 0..3u8 {
+        let burst = BURST.with(|b| b.get());
+        for i in 0..if burst { 12u8 } else { 3u8 } {
             let id = op_start(&s, name, "write", Some(cs));
             match put(&mut st, tag.wrapping_add(round * 16 + i), readiness).await {
                 Ok(()) => op_done(&s, id, "ok".into()),
@@ -417,7 +424,9 @@ async fn tcp_peer(s: S, name: &'static str, start_ms: u64, tag: u8, slow_reader:
                     break;
                 }
             }
-            tokio::time::sleep(Duration::from_millis(1)).await;
+            if !burst {
+                tokio::time::sleep(Duration::from_millis(1)).await;
+            }
         }
         if !failed {
             let id = op_start(&s, name, "read", Some(cs));
@@ -528,7 +537,8 @@ struct Run {
 fn run_once(work: Work, steps: usize, crash_at: Option<usize>, bounce_after: Option<usize>, second_crash_after: Option<usize>, bounce_only_at: Option<usize>, sel: usize, spawn_kind: usize, readiness: bool, double_bounce: bool, reorder: bool) -> Run {
     let mut b = builder(1);
     b.min_message_latency(Duration::from_millis(1)).max_message_latency(Duration::from_millis(1));
-    b.tcp_capacity(if matches!(work, Work::TcpNotReading | Work::TcpVictimWrites | Work::TcpVictimDials) { 2 } else { 4 });
+    b.tcp_capacity(if matches!(work, Work::TcpNotReading | Work::TcpVictimWrites | Work::TcpVictimDials | Work::TcpPeerStreams) { 2 } else { 4 });
+    BURST.with(|b| b.set(work == Work::TcpPeerStreams));
     let mut sim = b.build();
     let st: S = Rc::new(RefCell::new(St::default()));
     let sv = st.clone();
@@ -713,13 +723,13 @@ fn run_once(work: Work, steps: usize, crash_at: Option<usize>, bounce_after: Opt
 }
 
 pub fn scenario(ch: &mut Chooser, thorough: bool) -> Exec {
-    let works: &[Work] = &[Work::TcpReading, Work::TcpNotReading, Work::TcpSlowAccept, Work::TcpVictimWrites, Work::TcpVictimDials, Work::Udp, Work::Idle, Work::FsRing];
+    let works: &[Work] = &[Work::TcpReading, Work::TcpNotReading, Work::TcpSlowAccept, Work::TcpVictimWrites, Work::TcpVictimDials, Work::TcpPeerStreams, Work::Udp, Work::Idle, Work::FsRing];
     let work = *ch.of("workload", works);
     let steps = if thorough { 20 } else { 12 };
     let mode = ch.choose("fault", 3); // 0 crash (+bounce), 1 bounce without crash, 2 crash-bounce-crash
     let at = ch.choose("fault_before_step", steps);
     let sel = ch.choose("victim_selection(name|regex-one|regex-two-hosts)", 3);
-    let is_tcp = matches!(work, Work::TcpReading | Work::TcpNotReading | Work::TcpSlowAccept | Work::TcpVictimWrites);
+    let is_tcp = matches!(work, Work::TcpReading | Work::TcpNotReading | Work::TcpSlowAccept | Work::TcpVictimWrites | Work::TcpPeerStreams);
     let readiness = matches!(work, Work::TcpNotReading | Work::TcpVictimDials) && ch.flag("peer_writes_with_writable_and_try_write");
     let reorder = work == Work::TcpNotReading && ch.flag("first_data_segment_delayed_so_later_ones_overtake_it");
     let peek_first = work == Work::TcpReading && ch.flag("peers_peek_before_their_final_read");
